@@ -594,3 +594,51 @@ package trie
 //@   loop 1: invariant authenticated: expectedHash != nil && curPos < 251 && auth(*root, keyOf(*keyFelt), *expectedHash, curPos)
 //@   loop 1: invariant key: keyBits.len == 251 && val(&keyBits) == keyOf(*keyFelt) && wf(&keyBits)
 //@   ensures sound: result1 == nil ==> auth(*root, keyOf(*keyFelt), result0, 251) || (result0 == felt.Zero && absent(*root, keyOf(*keyFelt)))
+
+// ---- range proofs (legacy trie): what is checked before and around the reconstruction -------------
+// The reconstruction helpers (proofToPath, buildTrie, hasRightElement, Trie.Hash) are entry points
+// that record their answers; what is under contract is VerifyRangeProof's own logic around them:
+// the data checks, that a range without proof or with two edge proofs is accepted only if the
+// recomputed root equals the given root, that an empty range is accepted only if the proof shows no
+// value at the first key and nothing to its right, and that a single element is accepted only if
+// the proof yields a value for that key and it equals the claimed one.
+//@ ghost func feltCmp(a felt.Felt, b felt.Felt) int
+//@ extern func github.com/NethermindEth/juno/core/felt.(*Felt).Cmp
+//@   requires z != nil && x != nil
+//@   ensures result == feltCmp(*z, *x)
+//@ ghost var pathVal *felt.Felt
+//@ ghost var hasRight bool
+//@ ghost var rebuiltRoot felt.Felt
+//@ func proofToPath
+//@   trusted
+//@   sets pathVal = result1
+//@   ensures result2 == nil ==> result0 != nil
+//@ func hasRightElement
+//@   trusted
+//@   sets hasRight = result
+//@ func buildTrie
+//@   trusted
+//@   ensures result1 == nil ==> result0 != nil
+//@ func (*Trie).Hash
+//@   trusted
+//@   sets rebuiltRoot = result0
+//@ func NewStorageNodeSet
+//@   trusted
+//@ extern func github.com/NethermindEth/juno/utils.(*OrderedSet).List
+//@ extern func errors.New
+//@   ensures result != nil
+//@ extern func fmt.Errorf
+//@   ensures result != nil
+//@ func VerifyRangeProof
+//@   props C10
+//@   arith int
+//@   nosafe
+//@   requires root != nil && first != nil
+//@   requires forall i int :: 0 <= i && i < len(keys) ==> keys[i] != nil
+//@   modifies *
+//@   assigns pathVal, hasRight, rebuiltRoot
+//@   loop 1: invariant checked_so_far: len(keys) == len(values) && (forall j int :: 0 <= j && j <= rangeindex ==> values[j] != nil && *values[j] != felt.Zero && (j < len(keys) - 1 ==> feltCmp(*keys[j], *keys[j+1]) <= 0))
+//@   ensures data_checked: result1 == nil ==> len(keys) == len(values) && (forall j int :: 0 <= j && j < len(values) ==> values[j] != nil && *values[j] != felt.Zero) && (forall j int :: 0 <= j && j < len(keys) - 1 ==> feltCmp(*keys[j], *keys[j+1]) <= 0)
+//@   ensures whole_trie_root_recomputed: result1 == nil && proof == nil ==> rebuiltRoot == *root && !result0
+//@   ensures empty_range_shows_nothing: result1 == nil && proof != nil && len(keys) == 0 ==> pathVal == nil && !hasRight && !result0
+//@   ensures single_element_value_proved: result1 == nil && proof != nil && len(keys) == 1 ==> rebuiltRoot == *root || (pathVal != nil && *values[0] == *pathVal && result0 == hasRight)
